@@ -4,8 +4,8 @@ CFG = {
     "claim": "Proof: in the addressing model of read_write.rs (per-pixel, block bw x bh incl. 2x1 / 8x1 / 4x4 fast path / "
              "general, bi-planar; 3072-byte channel-conversion chunking; line buffer; decoder selection) every write of a "
              "rectangle decode lands inside the addressed rows and carries the source pixel (off.x+i, off.y+j), for all "
-             "surface sizes, rectangles, block shapes, pitches and conversion settings (assembled for the uncompressed and block "
-             "families; bi-planar: chroma-line accounting and row level proved, y-loop/chunk assembly only tied); the 16-entry channel table has the "
+             "surface sizes, rectangles, block shapes, pitches and conversion settings (assembled for the uncompressed, block and "
+             "bi-planar families; bi-planar for every sub-sampling (sx, sy) >= 1 incl. the y-offset loops and the conversion chunks); the 16-entry channel table has the "
              "documented structure. The model is tied to the code on every run by comparing, per case, the set of written "
              "output bytes and (for probe formats) the map output pixel -> source pixel read back from the implementation; "
              "an independent oracle compares rect decodes with crops of the full decode for all 73 formats x 12 colours.",
